@@ -287,7 +287,7 @@ func c17Draw(rt *rapid.T) *gen.Model {
 		// make tuplesets meaningful sometimes: restrictions on every relation that is used as a tupleset
 		return m
 	}
-	m := gen.GraphModel(rt, gen.GraphOpts{MultiThis: true, DupRestr: true, Hazards: true, CycleBoost: rapid.Bool().Draw(rt, "cb"), SmallModels: true, Names: true, Depth3: true})
+	m := gen.GraphModel(rt, gen.GraphOpts{MultiThis: true, DupRestr: true, Hazards: true, CycleBoost: rapid.Bool().Draw(rt, "cb"), SmallModels: true, Names: true, Depth3: true, Scale: true, SparseMeta: true})
 	if rapid.IntRange(0, 7).Draw(rt, "plantCycle") == 0 {
 		// plant a cycle of pure computed usersets over k >= 2 relations of one type
 		for ti := range m.Types {
